@@ -96,7 +96,10 @@ def run(tier, seed, rep):
     tables = {"unimod": obo.unimod(), "psimod": obo.psimod(), "xlmod": [x for x in obo.xlmod()]}
     for db, rows in tables.items():
         colon = [x for x in rows if ":" in x["name"] or "[" in x["name"]]
-        pick = rows if thorough else (rnd.sample(rows, 300) + colon[:150])
+        # rows whose tabulated composition uses group tokens (Ac, Me, Hex, ...) are always included: few and fragile
+        special = [x for x in rows if x.get("comp") and any(len(t[0]) > 1 and t[0] in ("Ac", "Me", "Hex", "HexNAc", "dHex",
+                   "NeuAc", "NeuGc", "Pent", "HexA", "Kdn", "Sulf", "Phos", "HexN", "Hep") for t in x["comp"])]
+        pick = rows if thorough else (rnd.sample(rows, 300) + colon[:150] + special[:120])
         for j, row in enumerate(pick):
             evs.append(spell_event(pp, f"{db}.{row['id']}.{j}", row, rnd, thorough))
     for j, t in enumerate(obo.monosaccharides()):
